@@ -3,9 +3,20 @@
     Model: Model/HostPort.v (imdl's own logic exact; the url crate's hp_host parser, the IP
     `Display`s and the regex digit class are parameters constrained by [url_lib]);
     proofs: Proofs/HostPortProofs.v; the regex, the format strings and the re-bracketing test
-    are re-read from src/host_port.rs by tools/rs2v_hostport.py into Generated/GenHostPort.v. *)
+    are re-read from src/host_port.rs by tools/rs2v_hostport.py into Generated/GenHostPort.v.
+
+    X9: [url_lib] is no longer only assumed. Model/UrlHost.v is a concrete, executable model of
+    `url::Host::parse` (url 2.5.2) on a stated fragment — bracketed IPv6 literals, and ASCII texts
+    without `%` and without `xn--` labels (IPv4 in every spelling of the WHATWG parser, ASCII
+    domains) — and of the three IP serialisers (`Display` of `Ipv4Addr` / `Ipv6Addr`, the url
+    crate's `write_ipv6`). Proofs/UrlHostProofs.v proves every field of [url_lib] for these
+    functions, for all 2^32 / 2^128 addresses. WHAT REMAINS ASSUMED: the regex digit class, and
+    the behaviour of `Host::parse` outside the fragment (IDNA on non-ASCII text and punycode
+    labels, percent-decoding) — the four fields of [ext_lib]; the `c17_ip_*` corollaries need no
+    assumption about the url crate at all. *)
 From Coq Require Import NArith ZArith List Bool String.
 From Imdl Require Import Model.Bencode Model.HostPort Proofs.HostPortProofs Generated.GenHostPort.
+From Imdl Require Import Model.UrlHost Proofs.UrlHostProofs.
 Import ListNotations.
 Local Open Scope N_scope.
 
@@ -153,6 +164,153 @@ Print Assumptions c17_reread_values_survive.
 Print Assumptions c17_rejects.
 Print Assumptions c17_library_hypotheses_satisfiable.
 Print Assumptions c17_three_address_kinds.
+
+(* ================================================================== X9: the library hypotheses, proved *)
+
+(** IPv4: the dotted-decimal text of every address is read back by the WHATWG IPv4 parser *)
+Check parse4_std4 : forall a, a < 4294967296 -> u_parse4 (u_std4 a) = Some a.
+Theorem c17_ipv4_text_reads_back :
+  forall a, a < 2 ^ 32 -> u_parse4 (u_std4 a) = Some a /\ forallb v4_char (u_std4 a) = true.
+Proof. intros a Ha. exact (conj (parse4_std4 a Ha) (std4_shape_all a)). Qed.
+
+(** IPv6: both serialisers (the url crate's and the standard library's, including its IPv4-mapped form) are read
+    back by the WHATWG IPv6 parser as the same address: all 2^128 addresses *)
+Check parse6_url6 : forall a, a < 2 ^ 128 -> u_parse6 (u_url6 a) = Some a.
+Check parse6_std6 : forall a, a < 2 ^ 128 -> u_parse6 (u_std6 a) = Some a.
+Theorem c17_ipv6_texts_read_back :
+  forall a, a < 2 ^ 128 -> u_parse6 (u_url6 a) = Some a /\ u_parse6 (u_std6 a) = Some a.
+Proof. intros a Ha. exact (conj (parse6_url6 a Ha) (parse6_std6 a Ha)). Qed.
+
+Theorem c17_ipv6_text_shapes :
+  forall a, forallb v6_char (u_url6 a) = true /\ hp_mem 58 (u_std6 a) = true /\ forallb v6_char (u_std6 a) = true.
+Proof. intros a. exact (conj (proj1 (url6_shape_all a)) (std6_shape_all a)). Qed.
+
+(** what the parsers return is an address *)
+Theorem c17_parsed_addresses_in_range :
+  (forall s a, u_parse4 s = Some a -> a < 2 ^ 32) /\ (forall s a, u_parse6 s = Some a -> a < 2 ^ 128).
+Proof. exact (conj parse4_range parse6_range). Qed.
+
+(** the fuel of the IPv6 parser's main loop (the length of the text) is never the reason for a rejection: any two
+    amounts of fuel that cover the text give the same result *)
+Theorem c17_ipv6_parser_fuel_suffices : forall f1 f2 (s : list N) acc comp,
+  (List.length s <= f1)%nat -> (List.length s <= f2)%nat -> u_p6_loop f1 s acc comp = u_p6_loop f2 s acc comp.
+Proof. exact p6_loop_fuel. Qed.
+
+(** `Host::parse` on the fragment: whatever it returns, its printed form parses back to it; domains are non-empty,
+    lower-case-stable and free of forbidden code points; the empty text and forbidden code points are refused *)
+Check hparse_print_parse : forall t h, u_hparse t = Some (Some h) -> u_hparse (hshow u_std4 u_url6 h) = Some (Some h).
+Theorem c17_host_parse_on_the_fragment :
+  (forall t h, u_hparse t = Some (Some h) -> u_hparse (hshow u_std4 u_url6 h) = Some (Some h)) /\
+  (forall t h, u_hparse t = Some (Some h) ->
+     (exists a, h = HIp6 a /\ a < 2 ^ 128) \/ (exists a, h = HIp4 a /\ a < 4294967296) \/
+     (exists d, h = HDomain d /\ hd_is 91 t = None)) /\
+  (forall t d, hd_is 91 t = None -> u_hparse t = Some (Some (HDomain d)) ->
+     u_hparse d = Some (Some (HDomain d)) /\ d <> [] /\ forallb (fun b => negb (hp_forbidden b)) d = true) /\
+  u_hparse [] = Some None /\
+  (forall t, hd_is 91 t = None -> existsb hp_forbidden t = true -> u_hparse t = Some None \/ u_hparse t = None).
+Proof. exact (conj hparse_print_parse (conj hparse_cases (conj hparse_domain (conj eq_refl hparse_forbidden)))). Qed.
+
+(** every field of [url_lib] holds for the concrete functions; the only residue is [ext_lib]: four facts about
+    `Host::parse` outside the fragment, and the two facts about the regex digit class *)
+Definition real_lib_statement := forall nd ext,
+  (forall p, p <> [] -> forallb hp_is_dig p = true -> nd p = true) ->
+  (forall p, nd p = true -> p <> [] /\ forallb (fun b => hp_is_dig b || (128 <=? b)) p = true) ->
+  ext_lib ext -> url_lib nd (u_hparse_with ext) u_std4 u_std6 u_url6.
+Check real_lib : real_lib_statement.
+Theorem c17_library_hypotheses_proved : real_lib_statement.
+Proof. exact real_lib. Qed.
+
+(** ... and with nothing outside the fragment accepted, there is no residue at all *)
+Theorem c17_library_instance_without_assumptions : url_lib u_ascii_nd (u_hparse_with u_no_ext) u_std4 u_std6 u_url6.
+Proof. exact strict_lib. Qed.
+
+(** C17 for IP literals and fragment domains, whatever `Host::parse` does elsewhere ([ext] is arbitrary): what was
+    accepted at the command line, or is any host the fragment parser can return, survives printing and storing *)
+Section IpCorollaries.
+  Variable ext : list N -> option hp_host.
+  Let P := HostPort.hp_parse u_ascii_nd (u_hparse_with ext).
+  Let P0 := HostPort.hp_parse u_ascii_nd (u_hparse_with u_no_ext).
+  Let D := HostPort.hp_display u_std4 u_url6.
+  Let B := HostPort.hp_to_bencode u_std4 u_std6.
+  Let U := HostPort.hp_from_bencode (u_hparse_with ext).
+  Let U0 := HostPort.hp_from_bencode (u_hparse_with u_no_ext).
+
+  Definition ip_printed_statement := forall h n,
+    (exists t, u_hparse t = Some (Some h)) -> n <= 65535 -> P (D (h, n)) = HpOk (h, n).
+  Definition ip_stored_statement := forall h n rest,
+    (exists t, u_hparse t = Some (Some h)) -> n <= 65535 -> U (B (h, n) ++ rest) = Some (h, n).
+  Definition ip_accepted_statement := forall s hp,
+    P0 s = HpOk hp -> P s = HpOk hp /\ P (D hp) = HpOk hp /\ forall rest, U (B hp ++ rest) = Some hp.
+  Definition ip_reread_statement := forall bs hp,
+    U0 bs = Some hp -> U bs = Some hp /\ P (D hp) = HpOk hp /\ forall rest, U (B hp ++ rest) = Some hp.
+End IpCorollaries.
+
+Check ip_printed_form_parses_back : forall ext, ip_printed_statement ext.
+Theorem c17_ip_printed_form_parses_back : forall ext, ip_printed_statement ext.
+Proof. exact ip_printed_form_parses_back. Qed.
+
+Theorem c17_ip_stored_pair_reads_back : forall ext, ip_stored_statement ext.
+Proof. exact ip_stored_pair_reads_back. Qed.
+
+Theorem c17_ip_accepted_values_survive : forall ext, ip_accepted_statement ext.
+Proof. exact ip_accepted_values_survive. Qed.
+
+Theorem c17_ip_reread_values_survive : forall ext, ip_reread_statement ext.
+Proof. exact ip_reread_values_survive. Qed.
+
+(** the concrete model runs: every spelling below is computed by the model of the url crate *)
+Example c17_concrete_hosts :
+  let H := u_hparse in
+  let P := HostPort.hp_parse u_ascii_nd (u_hparse_with u_no_ext) in
+  let D := HostPort.hp_display u_std4 u_url6 in
+  let B := HostPort.hp_to_bencode u_std4 u_std6 in
+  (* [::ffff:1.2.3.4] : the address; std prints ::ffff:1.2.3.4, the url crate ::ffff:102:304 *)
+  H [91; 58; 58; 102; 102; 102; 102; 58; 49; 46; 50; 46; 51; 46; 52; 93] = Some (Some (HIp6 281470698652420)) /\
+  u_std6 281470698652420 = [58; 58; 102; 102; 102; 102; 58; 49; 46; 50; 46; 51; 46; 52] /\
+  u_url6 281470698652420 = [58; 58; 102; 102; 102; 102; 58; 49; 48; 50; 58; 51; 48; 52] /\
+  (* 1:0:0:2:0:0:0:3 -> 1:0:0:2::3 (the first LONGEST run), 0:0:1:0:0:1:0:0 -> ::1:0:0:1:0:0 (the FIRST of equal runs) *)
+  u_url6 (u_of_groups [1; 0; 0; 2; 0; 0; 0; 3]) = [49; 58; 48; 58; 48; 58; 50; 58; 58; 51] /\
+  u_url6 (u_of_groups [0; 0; 1; 0; 0; 1; 0; 0]) = [58; 58; 49; 58; 48; 58; 48; 58; 49; 58; 48; 58; 48] /\
+  u_std6 (u_of_groups [1; 0; 2; 3; 4; 5; 6; 7]) = [49; 58; 48; 58; 50; 58; 51; 58; 52; 58; 53; 58; 54; 58; 55] /\
+  (* 0x7f.1 -> 127.0.0.1 ; 1.2.3.256 and 08.1 are errors; ExAmple.COM. is the domain example.com. *)
+  H [48; 120; 55; 102; 46; 49] = Some (Some (HIp4 2130706433)) /\
+  u_std4 2130706433 = [49; 50; 55; 46; 48; 46; 48; 46; 49] /\
+  H [49; 46; 50; 46; 51; 46; 50; 53; 54] = Some None /\
+  H [48; 56; 46; 49] = Some None /\
+  H [69; 120; 65; 109; 46; 67; 79; 77; 46] = Some (Some (HDomain [101; 120; 97; 109; 46; 99; 111; 109; 46])) /\
+  (* xn--a, a%41 and non-ASCII text are outside the fragment; [::1 and [:::] are errors *)
+  H [120; 110; 45; 45; 97] = None /\ H [97; 37; 52; 49] = None /\ H [195; 169] = None /\
+  H [91; 58; 58; 49] = Some None /\ H [91; 58; 58; 58; 93] = Some None /\
+  (* [2001:db8::1]:6881 end to end through imdl's own logic over the concrete library *)
+  P [91; 50; 48; 48; 49; 58; 100; 98; 56; 58; 58; 49; 93; 58; 54; 56; 56; 49] =
+    HpOk (HIp6 42540766411282592856903984951653826561, 6881) /\
+  D (HIp6 42540766411282592856903984951653826561, 6881) = [91; 50; 48; 48; 49; 58; 100; 98; 56; 58; 58; 49; 93; 58; 54; 56; 56; 49] /\
+  B (HIp6 42540766411282592856903984951653826561, 6881) =
+    [108; 49; 49; 58; 50; 48; 48; 49; 58; 100; 98; 56; 58; 58; 49; 105; 54; 56; 56; 49; 101; 101].
+Proof. vm_compute. repeat split; reflexivity. Qed.
+
+Example c17_ip_corollaries_inhabited :
+  (exists t, u_hparse t = Some (Some (HIp6 1))) /\ (exists t, u_hparse t = Some (Some (HIp4 16909060))) /\
+  (exists t, u_hparse t = Some (Some (HDomain [97; 46; 98]))) /\ ext_lib u_no_ext.
+Proof.
+  split; [exists [91; 58; 58; 49; 93]; reflexivity|]. split; [exists [49; 46; 50; 46; 51; 46; 52]; reflexivity|].
+  split; [exists [65; 46; 98]; reflexivity|exact no_ext_lib].
+Qed.
+
+Print Assumptions c17_ipv4_text_reads_back.
+Print Assumptions c17_ipv6_texts_read_back.
+Print Assumptions c17_ipv6_text_shapes.
+Print Assumptions c17_parsed_addresses_in_range.
+Print Assumptions c17_ipv6_parser_fuel_suffices.
+Print Assumptions c17_host_parse_on_the_fragment.
+Print Assumptions c17_library_hypotheses_proved.
+Print Assumptions c17_library_instance_without_assumptions.
+Print Assumptions c17_ip_printed_form_parses_back.
+Print Assumptions c17_ip_stored_pair_reads_back.
+Print Assumptions c17_ip_accepted_values_survive.
+Print Assumptions c17_ip_reread_values_survive.
+Print Assumptions c17_concrete_hosts.
+Print Assumptions c17_ip_corollaries_inhabited.
 
 (** (T) the source still contains the regex, the format strings, the port type and the
     re-bracketing test that Model/HostPort.v mirrors *)
